@@ -758,6 +758,8 @@ TENSOR_METHODS.update({
     "half": lambda E, t: _to(E, t, dtype=DType("float16")),
     "type": lambda E, t, d=None: _to(E, t, dtype=d),
     "requires_grad_": lambda E, t, v=True: t,
+    "numpy": lambda E, t: t,      # ndarray stand-in: same element model (numpy ops used by the AWQ code are index maps / bit ops)
+    "astype": lambda E, t, d: to_dtype(E, t, d if not isinstance(d, str) else DType(d)),
     "dequantize": lambda E, t: raise_(E, "NotImplementedError", "dequantize on a plain tensor is aten.dequantize (not supported)"),
 })
 for _n in ["reciprocal", "reshape", "view", "permute", "t", "transpose", "expand", "unsqueeze", "squeeze", "select", "flatten",
@@ -906,7 +908,9 @@ def _arange(E, *a, dtype=None, device=None, **kw):
         raise Unsupported("arange with non-positive step")
     n = E.floordiv(E.binop("Add", E.binop("Sub", end, start), step - 1), step)
     dev = device if device is not None else Device("cpu")
-    return STensor(d, [n], lambda idx: scalar_to(E, E.binop("Add", start, E.binop("Mult", idx[0], step)), d), device=dev)
+    r = STensor(d, [n], lambda idx: scalar_to(E, E.binop("Add", start, E.binop("Mult", idx[0], step)), d), device=dev)
+    r.attrs["int_elem"] = lambda idx: sym.to_z3_int(E.binop("Add", start, E.binop("Mult", idx[0], step)))
+    return r
 
 
 def _tensor(E, data, dtype=None, device=None, **kw):
